@@ -67,6 +67,17 @@ var c17Shapes = []c17Shape{
 	{"set_user", "set @a%d = 'v;w'", false, false, true, false},
 	{"two_strings", "select %d, ';', ';'", false, true, true, false},
 	{"adjacent_quotes", "select %d, ''';'''", false, true, true, false},
+	// multi-byte characters and raw NUL bytes inside literals, identifiers and comments (the
+	// scanner steps by rune width; a NUL is a one-byte character wherever it stands)
+	{"sq_mb_semi", "select %d, '\u4e2d;\u6587'", false, false, true, false},
+	{"sq_mb_nul_end", "select %d, '\u4e2d\x00'", false, false, false, false},
+	{"sq_mb2_nul_semi", "select %d, '\u00e9\x00', 'a;b'", false, false, true, false},
+	{"sq_mb4_nul_end", "select %d, 'a\U0001F600\x00'", false, false, false, false},
+	{"sq_nul_semi", "select %d, 'a\x00;b'", false, false, true, false},
+	{"dq_mb_nul_semi", "select %d, \"\u4e2d\x00;\"", false, false, true, false},
+	{"bq_mb_semi", "select %d as `\u540d;x`", false, false, true, false},
+	{"blk_cmt_mb_nul", "select /* \u4e2d\x00;*/ %d", false, false, true, false},
+	{"line_dash_mb_nul", "select %d -- \u4e2d\x00;\n", false, false, true, false},
 	// empty pieces
 	{"e_none", "", true, true, false, false},
 	{"e_space", " ", true, true, false, false},
